@@ -71,7 +71,11 @@ Accepted subset (anything else raises TranslateError with file:line):
               non-zero); a if c else b; zip of two or three lists or strings;
               [e for x in l if c] and the generator form (one `for`, any number
               of `if`s); ''.join(..) of a list of strings; c.upper() of a
-              character of a string (the oracle upper_c).
+              character of a string (the oracle upper_c); f(args) for a plain
+              function f of the same module whose body is a docstring,
+              assignments of such expressions to new local names and a final
+              `return <expression>` (nothing that can raise): inlined as a
+              beta-redex ((fun p q => ..) a b).
   tables      the kind of self.<table> is read from __init__: `{}` is a dict
               keyed by length whose values are Counters, `Counter()` a Counter
               (count_base_structures: keyed by base structures).
@@ -199,9 +203,11 @@ class Env:
 
 
 class Tr:
-    def __init__(self, path, fn, detectors):
+    def __init__(self, path, fn, detectors, helpers=None):
         self.path, self.fn = path, fn
         self.detectors = detectors    # local name -> (coq field, arg types, mutated index, result type)
+        self.helpers = helpers or {}  # name -> FunctionDef of a plain function of the module (inlined where called)
+        self.inlining = []            # names of the helpers being inlined
         self.pending = []             # (monadic text, variable) of the statement being translated
         self.pure_only = 0            # > 0: inside an expression that may not raise (short circuit, comprehension)
         self.guards = []              # ast dumps of the operands of the enclosing `and`s seen so far
@@ -216,7 +222,8 @@ class Tr:
             _comment(ast.unparse(node)).split("\n")[0][:100]))
 
     def check_name(self, node, name):
-        if name in RESERVED or re.fullmatch(r"t\d+", name) or name in self.detectors or name in BUILTINS_USED \
+        if name in RESERVED or re.fullmatch(r"t\d+", name) or name in self.detectors or name in self.helpers \
+                or name in BUILTINS_USED \
                 or not name.isidentifier() or not name.isascii() or name.startswith("_") or "__" in name:
             self.fail(node, "the variable name %r collides with the generated code" % name)
 
@@ -344,6 +351,8 @@ class Tr:
             if f.id in self.detectors:
                 self.fail(e, "a detector is called inside an expression (only `x = f(..)`, `a, b = f(..)` and `f(..)` as "
                              "statements are supported)")
+            if f.id in self.helpers:
+                return self.helper_call(e, env)
             self.fail(e, "unsupported call")
         if isinstance(f, ast.Attribute):
             if f.attr == "join" and isinstance(f.value, ast.Constant) and f.value.value == "" and len(e.args) == 1:
@@ -364,6 +373,66 @@ class Tr:
                         self.fail(e, "self.omen.parse of a %s" % (ta,))
                     return "omen_parse %s %s" % (_paren(t), _paren(a)), INT
         self.fail(e, "unsupported call")
+
+    def helper_call(self, e, env):
+        """f(args) for a plain function f of the same module whose body is a docstring, assignments of pure
+        expressions to new local names and one final `return <expression>`: inlined as
+        ((fun p1 p2 => let x := .. in result) arg1 arg2), the parameters typed by the arguments of this call"""
+        fn = self.helpers[e.func.id]
+        if fn.name in self.inlining:
+            self.fail(e, "recursive helper")
+        a = fn.args
+        if fn.decorator_list or a.vararg or a.kwarg or a.kwonlyargs or a.posonlyargs or a.kw_defaults or a.defaults \
+                or fn.returns is not None or any(x.annotation is not None for x in a.args):
+            self.fail(e, "the helper %s has an unsupported signature" % fn.name)
+        params = [x.arg for x in a.args]
+        if len(params) != len(e.args) or len(set(params)) != len(params):
+            self.fail(e, "%s takes %d parameters" % (fn.name, len(params)))
+        args = [self.expr(x, env) for x in e.args]
+        inner = Env()
+        for p, (_, ty) in zip(params, args):
+            self.check_name(fn, p)
+            if ty in (OPAQUE, SELF, OMEN) or is_mutable(ty):
+                self.fail(e, "a %s is passed to a helper" % (ty,))
+            inner.types[p] = ty
+        body = list(fn.body)
+        while body and (isinstance(body[0], ast.Pass) or (isinstance(body[0], ast.Expr)
+                                                          and isinstance(body[0].value, ast.Constant)
+                                                          and type(body[0].value.value) is str)):
+            body = body[1:]
+        if not body or not isinstance(body[-1], ast.Return) or body[-1].value is None:
+            self.fail(fn, "the helper %s does not end in `return <expression>`" % fn.name)
+        for nd in ast.walk(fn):
+            if isinstance(nd, (ast.Global, ast.Nonlocal, ast.FunctionDef, ast.AsyncFunctionDef, ast.ClassDef, ast.Lambda,
+                               ast.Yield, ast.YieldFrom, ast.Await)) and nd is not fn:
+                self.fail(nd, "unsupported construct in the helper %s" % fn.name)
+        self.inlining.append(fn.name)
+        self.pure_only += 1
+        saved_guards, self.guards = self.guards, []
+        try:
+            lets = ""
+            for s in body[:-1]:
+                if not (isinstance(s, ast.Assign) and len(s.targets) == 1 and isinstance(s.targets[0], ast.Name)):
+                    self.fail(s, "the helper %s is more than assignments to local names and a final return" % fn.name)
+                n = s.targets[0].id
+                self.check_name(s, n)
+                if n in inner.types:
+                    self.fail(s, "the helper %s assigns %r twice" % (fn.name, n))
+                t, ty = self.expr(s.value, inner)
+                if ty in (OPAQUE, SELF, OMEN, SEC) or is_mutable(ty):
+                    self.fail(s, "a %s is assigned to a variable" % (ty,))
+                inner.types[n] = ty
+                lets += "let %s := %s in " % (n, t)
+            t, ty = self.expr(body[-1].value, inner)
+        finally:
+            self.guards = saved_guards
+            self.pure_only -= 1
+            self.inlining.pop()
+        if ty in (OPAQUE, SELF, OMEN, SEC) or is_mutable(ty):
+            self.fail(fn, "the helper %s returns a %s" % (fn.name, ty))
+        if not params:
+            return "(%s%s)" % (lets, t), ty
+        return "((fun %s => %s%s) %s)" % (" ".join(params), lets, t, " ".join(_paren(x[0]) for x in args)), ty
 
     def subscript(self, e, env):
         idx = e.slice
@@ -1107,7 +1176,9 @@ def render(repo=None):
         elif counts.get(b):
             raise TranslateError("%s: the builtin %s is rebound in the module" % (path, b))
     check_init(path, cls)
-    tr = Tr(path, fn, detectors)
+    # plain functions of the module (called helpers are inlined)
+    helpers = {s.name: s for s in tree.body if isinstance(s, ast.FunctionDef) and counts.get(s.name) == 1}
+    tr = Tr(path, fn, detectors, helpers)
     body = tr.translate()
     head = (
         "(* GENERATED by harness/translate_scorer.py from the Python source of the current\n"
